@@ -18,10 +18,12 @@
   __CPROVER_loop_invariant(st->last_packet_duration == __CPROVER_loop_entry(st->last_packet_duration)) \
   __CPROVER_decreases(frame_size - pcm_count)
 
+static int g_sc_calls, g_sc_N, g_sc_C; static float *g_sc_x, *g_sc_mem;     /* ghost record of the soft clipper's calls (stub below) */
 #undef  OPUS_VERIF_LOOP_dec_native_frames
 #define OPUS_VERIF_LOOP_dec_native_frames \
-  __CPROVER_assigns(i, nb_samples, data, st->DecControl, st->rangeFinal, st->prev_mode, st->prev_redundancy, __CPROVER_object_whole(pcm)) \
+  __CPROVER_assigns(i, nb_samples, data, st->DecControl, st->rangeFinal, st->prev_mode, st->prev_redundancy, __CPROVER_object_whole(pcm), g_sc_calls, g_sc_N, g_sc_C, g_sc_x, g_sc_mem) \
   __CPROVER_loop_invariant(0 <= i && i <= count && nb_samples == i * packet_frame_size) \
+  __CPROVER_loop_invariant(g_sc_calls == __CPROVER_loop_entry(g_sc_calls))      /* the soft clipper is not run frame by frame */ \
   __CPROVER_loop_invariant(DEC_OK(st) && st->Fs == VERIF_FS && st->channels == __CPROVER_loop_entry(st->channels) && st->frame_size == packet_frame_size) \
   __CPROVER_loop_invariant(st->last_packet_duration == __CPROVER_loop_entry(st->last_packet_duration)) \
   __CPROVER_loop_invariant(__CPROVER_same_object(data, __CPROVER_loop_entry(data)) && PO(data) == PO(__CPROVER_loop_entry(data)) + verif_G[i]) \
@@ -67,6 +69,8 @@ int opus_packet_parse_impl(const unsigned char *data, opus_int32 len, int self_d
 /* soft clipper: frame-only stub (its own contract is enforced under C19) */
 void opus_pcm_soft_clip(float *x, int N, int C, float *declip_mem)
 {
+   if (g_sc_calls < 2) g_sc_calls++;
+   g_sc_x = x; g_sc_N = N; g_sc_C = C; g_sc_mem = declip_mem;
    if (C < 1 || N < 1 || !x || !declip_mem) return;
    __CPROVER_assert(__CPROVER_w_ok(x, (size_t)N * C * sizeof(float)) && __CPROVER_w_ok(declip_mem, C * sizeof(float)), "soft clip called on writable memory");
    __CPROVER_havoc_slice(x, (size_t)N * C * sizeof(float)); __CPROVER_havoc_slice(declip_mem, C * sizeof(float));
@@ -91,6 +95,7 @@ void h_decode_native(void)
    CANARY_ASSUME(len <= 4);
    if (!null_data) { __CPROVER_assume(len >= 0); data = malloc(len > 0 ? len : 1); __CPROVER_assume(data != NULL); }
    old = *st;
+   g_sc_calls = 0;
    ret = opus_decode_native(st, data, len, pcm, frame_size, fec, sd, want_off ? &pkt_off : NULL, soft, NULL, 0);
    /* C01: a documented error code or a sample count in (0, frame_size] */
    __CPROVER_assert(ret == OPUS_BAD_ARG || ret == OPUS_BUFFER_TOO_SMALL || ret == OPUS_INTERNAL_ERROR || ret == OPUS_INVALID_PACKET ||
@@ -113,6 +118,9 @@ void h_decode_native(void)
       spf = opus_packet_get_samples_per_frame(data, VERIF_FS);
       __CPROVER_assert(ret == g_parse_count * spf, "a received packet decodes to count * samples-per-frame samples");
       __CPROVER_assert(st->frame_size == spf, "state records the packet's frame size");
+      /* C13: the 16-bit view is the float output run through the library's soft clipper - ONE pass over the whole packet */
+      __CPROVER_assert(soft ? (g_sc_calls == 1 && g_sc_x == (float *)pcm && g_sc_N == ret && g_sc_C == st->channels && g_sc_mem == st->softclip_mem) : g_sc_calls == 0,
+                       "soft clipping requested: the clipper runs exactly once, over all frames of the decoded packet, with the decoder's clipping memory; not requested: never");
    }
    if (data != NULL && len > 0 && fec == 0 && ret == OPUS_BUFFER_TOO_SMALL)
       __CPROVER_assert(g_parse_count * opus_packet_get_samples_per_frame(data, VERIF_FS) > frame_size || 1, "capacity refusal");
